@@ -91,12 +91,33 @@ fn strip_symbol(v: &Value) -> Value {
     o
 }
 
+/// the same bytes with fewer line breaks: `\n` (and a preceding `\r`) after `;` or `}` becomes a space,
+/// unless the next line starts with `#`
+pub fn relayout(text: &str) -> String {
+    let mut b = text.as_bytes().to_vec();
+    for i in 0..b.len() {
+        if b[i] != b'\n' || b.get(i + 1) == Some(&b'#') {
+            continue;
+        }
+        let mut k = i;
+        if k > 0 && b[k - 1] == b'\r' {
+            k -= 1;
+        }
+        if k > 0 && matches!(b[k - 1], b';' | b'}') {
+            for x in &mut b[k..=i] {
+                *x = b' ';
+            }
+        }
+    }
+    String::from_utf8(b).unwrap_or_else(|_| text.to_string())
+}
+
 impl Property for C09 {
     fn id(&self) -> &'static str {
         "C09"
     }
     fn rule(&self) -> String {
-        "SEM programs (root + headers, plus seeded semantic faults in every file so that included files carry diagnostics) written to a scratch directory with per-file line structure: 0..5 extra leading lines (blank / comment / non-ASCII comment / multi-line block comment), LF or CRLF, non-ASCII text inside strings. Real server: didOpen(root), then definition and references at every identifier of the root, documentSymbol, foldingRange, documentLink, inlayHint(whole file), and the published diagnostics of every file. Oracle: the ide-level result for the same files (separate AnalysisHost) converted with the reference position mapper against the text of the file each location names; URIs and ranges must match exactly (reference lists and diagnostics as multisets). distinct = (seed, n); non-trivial = a definition or reference in another file whose line differs from the same offset's line in the requesting file".into()
+        "SEM programs (root + headers, plus seeded semantic faults in every file so that included files carry diagnostics) written to a scratch directory with per-file line structure: 0..5 extra leading lines (blank / comment / non-ASCII comment / multi-line block comment), LF or CRLF, non-ASCII text inside strings. Real server: didOpen(root), then definition and references at every identifier of the root, documentSymbol, foldingRange, documentLink, inlayHint(whole file), and the published diagnostics of every file; then a didChange of the root to the same bytes with a different line structure (line breaks after ';' and '}' turned into spaces: byte offsets stay, lines and columns move), after which the diagnostics the client holds for every file and the documentSymbol answer are compared again. Oracle: the ide-level result for the same files (separate AnalysisHost) converted with the reference position mapper against the text of the file each location names; URIs and ranges must match exactly (reference lists and diagnostics as multisets). distinct = (seed, n); non-trivial = a definition or reference in another file whose line differs from the same offset's line in the requesting file, or a root diagnostic that had to be re-published with moved lines after the relayout".into()
     }
     fn assumptions(&self) -> Vec<String> {
         vec!["the ide-level analysis of the same files is taken as 'the span the analysis computed' (its own correctness is C05/C17's business); 'idle' = all spawned tasks ended (verif hook counters)".into()]
@@ -242,6 +263,45 @@ impl Property for C09 {
             return done(c, fail("C09.inlay-hint", format!("server {:?}, expected {:?}", got, want)));
         }
         let _ = BTreeMap::<u8, u8>::new();
+        // ---- second revision: the same bytes with a different line structure (line breaks after `;`
+        // and `}` become spaces, so byte offsets stay and lines/columns move). What the client holds
+        // afterwards must denote the spans of the new analysis in the new text.
+        let new_root = relayout(&root_text);
+        if new_root != root_text {
+            let mut files2 = sess.files.clone();
+            files2[0].1 = new_root.clone();
+            let ws2 = Workspace::new(&files2, &files2[0].0);
+            let a2 = ws2.analysis();
+            c.did_change(&root_uri, 2, &new_root);
+            if !sched.wait_idle(2, Duration::from_secs(60)) {
+                return done(c, Verdict::Skip("not-idle"));
+            }
+            if !c.barrier(&root_uri) {
+                return done(c, Verdict::Skip("no-response"));
+            }
+            let published = c.last_diagnostics();
+            for (fid, ds) in a2.diagnostics() {
+                let Some(path) = ws2.fs.path_of(fid) else { continue };
+                let text = files2.iter().find(|f| f.0 == path).map(|f| f.1.clone()).unwrap_or_default();
+                let rp = RefPos::new(&text);
+                let want = sorted(ds.iter().map(|d| json!({"range": lsp_range(&rp, r2(d.location.range).0, r2(d.location.range).1), "message": d.message})).collect());
+                let uri = format!("file://{path}");
+                let got = published.get(&uri).map(|x| x.1.clone());
+                if got.as_ref() != Some(&want) {
+                    return done(c, fail("C09.diagnostics-after-relayout", format!("after a didChange that only moved line breaks, the client holds for {uri}: {got:?}; the spans of the new analysis in the new text are {want:?}\nnew root text: {new_root:?}")));
+                }
+                if !ds.is_empty() && fid == ws2.root {
+                    nontrivial = true;
+                }
+            }
+            let rp2 = RefPos::new(&new_root);
+            let Ok(r) = c.request("textDocument/documentSymbol", td.clone(), t) else { return done(c, Verdict::Skip("no-response")) };
+            let want = a2.document_symbol(ws2.root).map(|v| v.iter().map(|s| symbol_json(s, &rp2)).collect::<Vec<_>>());
+            let got = r["result"].as_array().map(|v| v.iter().map(strip_symbol).collect::<Vec<_>>());
+            if got != want {
+                return done(c, fail("C09.document-symbol-after-relayout", format!("server {:?}, expected {:?}", got, want)));
+            }
+        }
         done(c, Verdict::pass(nontrivial))
     }
     fn shrink_keep(&self) -> &'static [&'static str] {
